@@ -581,7 +581,7 @@ def impl_hit(a, b):
 
 def main():
     ck = Check('C02')
-    ck.build_theories(['theories/Props/C02.vo', 'theories/Corr/PairK.vo'])
+    ck.build_theories(['theories/Props/C02.vo', 'theories/Props/C02b.vo', 'theories/Corr/PairK.vo'])
     rep = gen_pair.main(REPO, os.path.join(ck.rundir, 'PairGen.v'))   # is_sub_list / do_bounds_overlap regenerated from the source ...
     ck.gen('PairGen.v', rep, 'PairGenEq.v')                           # ... proved equal to PairM.is_sub_list / GeomM.bounds_overlap for all arguments
     rep = gen_geom.main(REPO, os.path.join(ck.rundir, 'GeomGen.v'))   # find_line_intersection (C01's tie, needed by the sweep's instantiation)
@@ -589,6 +589,7 @@ def main():
     rep = gen_sweep.main(REPO, os.path.join(ck.rundir, 'SweepGen.v'))  # do_edges_intersect: events, __lt__, sort, the active-set loop ...
     ck.gen('SweepGen.v', rep, 'SweepGenEq.v')                          # ... proved equal to SweepM.sweep for all edge lists
     ck.props('Props/C02.v')
+    ck.props('Props/C02b.v')     # planar set truth for the axis-aligned family (boxes and rectangle polygons)
     rng = ck.rng
     quick = ck.tier == 'quick'
     cases, meta = [], []
